@@ -126,7 +126,10 @@ impl<VM: VMBinding> PageResource<VM> for FreeListPageResource<VM> {
                 // If we want to improve and get rid of this loop, we need to move this munprotect to anywhere after the ensure_mapped() call
                 // in Space.acquire(). We can either move it the option of 'protect_on_release' to space, or have a call to page resource
                 // after ensure_mapped(). However, I think this is sufficient given that this option is only used for PageProtect for debugging use.
-                while !new_chunk && !MMAPPER.is_mapped_address(rtn) {}
+                while !new_chunk && !MMAPPER.is_mapped_address(rtn) {
+                    #[cfg(mmtk_verif)]
+                    crate::util::verif::rt::spin_hint(crate::util::verif::rt::site::SPIN_PAGE_MAPPED);
+                }
                 self.munprotect(rtn, sync.free_list.size(page_offset as _) as _)
             } else if !self.common.contiguous && new_chunk {
                 // Don't unprotect if this is a new unmapped discontiguous chunk
